@@ -119,6 +119,28 @@ def check_listed(rec: Rec, cc: str, bban: str, origin: str):
         return want
     if on is not want:
         rec.fail(f"{'false_accept' if on else 'false_reject'}|{cc}", "national_iff_reference", inp, want, on)
+    # the BBAN handed to from_bban as an object - parsed for this country, or for another one whose structure the text fits too
+    # (with another national algorithm, or none): the verdict asked for is this country's. Declining a foreign object is
+    # tolerated; accepting what the country's algorithm rejects is not
+    if origin != "source-literals":
+        from ..dims import sibling_countries
+        from ..lib import BBAN
+        for y in [cc] + sibling_countries(o, cc, bban)[:3]:
+            try:
+                IBAN.from_bban(cc, BBAN(y, bban), validate_bban=True)
+                got_o = True
+            except SchwiftyException:
+                got_o = False
+            except Exception as e:  # noqa: BLE001
+                rec.fail(f"crash|from_bban_object|{type(e).__name__}|{frame_of(e)}", "national_total", {**inp, "as_bban_object_of": y}, "verdict",
+                         f"{type(e).__name__}: {e}")
+                continue
+            if got_o and want is False:
+                rec.fail(f"false_accept|{cc}|bban_object_of_{'own' if y == cc else 'other'}_country", "national_iff_reference",
+                         {**inp, "as_bban_object_of": y}, False, True)
+            elif not got_o and want is True and y == cc:
+                rec.fail(f"false_reject|{cc}|bban_object_of_own_country", "national_iff_reference", {**inp, "as_bban_object_of": y}, True, False)
+            rec.classes["bban-object-" + ("own" if y == cc else "foreign")] += 1
     # BBAN-level check: True on success, raises on failure
     try:
         r = IBAN(text).bban.validate_national_checksum()
@@ -418,6 +440,6 @@ def run(ctx):
         need += [f"{cc}-accept", f"{cc}-reject"]
     from ._configs import stage as _config_stage
     _config_stage(ctx, ['national'])
-    ctx.require_classes("source-literals", "registry-independence", "unlisted-valid", "mutant", "sweeps", "edge-sweeps", "sibling-text", "bban-object-direct", "bban-object-from_components", *need)
+    ctx.require_classes("bban-object-own", "bban-object-foreign", "source-literals", "registry-independence", "unlisted-valid", "mutant", "sweeps", "edge-sweeps", "sibling-text", "bban-object-direct", "bban-object-from_components", *need)
     ctx.extra["per_country"] = {cc: {"accept": ctx.rec.classes.get(f"{cc}-accept", 0),
                                      "reject": ctx.rec.classes.get(f"{cc}-reject", 0)} for cc in onat.LISTED}
